@@ -114,7 +114,7 @@ void h_Header_read(void)
   file->vf_base.work = 0;
   file->m_nByteToRead_float = 4;
   file->c_float = (char *)vf_alloc(5);
-  __CPROVER_assume(HB(0) != 0); /* no zero bytes before the header (the leading-zero loop is covered by B_Header_read_zeros) */
+  __CPROVER_assume(HB(0) != 0); /* no zero bytes before the header (the leading-zero skipping loop is not covered by a unit) */
   struct Header *self = mk_header_for_read();
   vf_exc = 0;
   Header__read(self, file);
